@@ -98,4 +98,42 @@ Fixpoint interpI {A} (r : run A) (forks : nat) : list (outc A) :=
     end
   end.
 
+(* the same exploration, additionally threading a signature of the decisions taken (1 / 2 = a comparison decided true /
+   false, 3 = a floor node): used only to MEASURE which paths of a model the correspondence exercises; the outcomes
+   are those of interpI (Proofs/RunSound.v: interpS_fst) *)
+Definition hmix (h d : Z) : Z := ((h * 1000003 + d) mod 2305843009213693951)%Z.
+Fixpoint interpS {A} (r : run A) (forks : nat) (h : Z) : list (outc A * Z) :=
+  match r with
+  | Ret a => [(OVal a, h)]
+  | Fail c => [(OFail c, h)]
+  | Ask c a b k =>
+    match decide c (ev a) (ev b) with
+    | TT => interpS (k true) forks (hmix h 1)
+    | TF => interpS (k false) forks (hmix h 2)
+    | TU => match forks with
+            | O => [(OAmb, h)]
+            | S f => interpS (k true) f (hmix h 1) ++ interpS (k false) f (hmix h 2)
+            end
+    end
+  | AskFloor e k =>
+    match floor_range (ev e) with
+    | Some (lo, hi) =>
+      if (lo =? hi)%Z then interpS (k lo) forks (hmix h 3)
+      else if (hi =? lo + 1)%Z then
+        match forks with O => [(OAmb, h)] | S f => interpS (k lo) f (hmix h 3) ++ interpS (k hi) f (hmix h 3) end
+      else [(OAmb, h)]
+    | None => [(OAmb, h)]
+    end
+  end.
+
+Lemma interpS_fst {A} (r : run A) : forall forks h, map fst (interpS r forks h) = interpI r forks.
+Proof.
+  induction r as [a|c a b k IH|e k IH|c]; intros forks h; cbn [interpS interpI]; try reflexivity.
+  - destruct (decide c (ev a) (ev b)); [apply IH|apply IH|].
+    destruct forks as [|f]; [reflexivity|]. rewrite map_app, !IH. reflexivity.
+  - destruct (floor_range (ev e)) as [[lo hi]|]; [|reflexivity].
+    destruct (lo =? hi)%Z; [apply IH|]. destruct (hi =? lo + 1)%Z; [|reflexivity].
+    destruct forks as [|f]; [reflexivity|]. rewrite map_app, !IH. reflexivity.
+Qed.
+
 End Interp.
